@@ -243,6 +243,43 @@ def late_features(spec, feat):
                 if isinstance(side, dict) and "times" in side and len(side["times"]) == len(vt) >= 3 and \
                         F(side["times"][0]) == vt[0] and F(side["times"][-1]) == vt[-1] and r2.random() < 0.6:
                     side["times"] = [str(vt[0])] + [str(vt[i] + (vt[i + 1] - vt[i]) * F(r2.randint(1, 3), 4)) for i in range(1, len(vt) - 1)] + [str(vt[-1])]
+    pvs = spec.get("path_variables", [])
+    if feat.get("pvars") and "ps" in pvs and len(pvs) > 1 and r2.random() < 0.5:
+        # the vector path variable in front of the scalar one
+        spec["path_variables"] = [v for v in pvs if v != "ps"] + ["ps"]
+    ctls = spec.get("controls", [])
+    n = len(spec["times"])
+    if feat.get("own_grid_late") and ctls and n >= 3 and not spec.get("var_times") and r2.random() < 0.35:
+        c = r2.choice(ctls)
+        keep = [0] + sorted(r2.sample(range(1, n - 1), r2.randint(0, n - 2))) + [n - 1]
+        if len(keep) < n:
+            spec["var_times"] = {c: [spec["times"][k] for k in keep]}
+            spec.setdefault("interpolation", {})[c] = r2.choice([0, 1, 2])
+            for side in (spec.get("bounds", {}).get(c) or []):
+                if isinstance(side, dict) and "times" in side:       # keep series bounds on stamps of the new grid
+                    kk = [i for i, t in enumerate(side["times"]) if t in spec["var_times"][c]]
+                    if len(kk) >= 2:
+                        side["times"], side["values"] = [side["times"][i] for i in kk], [side["values"][i] for i in kk]
+    if feat.get("seeds"):
+        # seeds in physical units: series on the variable's own stamps, plain numbers for extra / path variables
+        coll = spec.get("states", []) + spec.get("algebraics", []) + ctls
+        seeds = []
+        for m in range(spec["ensemble_size"]):
+            sd = {}
+            for v in coll:
+                if r2.random() < 0.5:
+                    vt = spec.get("var_times", {}).get(v, spec["times"])
+                    sd[v] = {"times": list(vt), "values": [str(dy(r2)) for _ in vt]}
+            for v in spec.get("extra_variables", []) + [x for x in spec.get("path_variables", []) if "#" not in x]:
+                if r2.random() < 0.7:
+                    sd[v] = str(dy(r2, 1, 8))
+            for v in ctls:           # controls are shared by the members (no control tree): one seed for all
+                if seeds and v in seeds[0]:
+                    sd[v] = seeds[0][v]
+                elif seeds:
+                    sd.pop(v, None)
+            seeds.append(sd)
+        spec["seeds"] = seeds
     pars = spec.get("parameters", [])
     if feat.get("retranscribe") and pars and r2.random() < 0.5:
         # parameters declared dynamic: the problem is transcribed once with other values, then again with
@@ -303,7 +340,8 @@ def observe(spec, probes=2, rng=None, mixins=()):
                                                       for v, off in lnames])] if lnames else [ca.MX(0)])
     lay = [int(round(float(v))) for v in np.array(idx(ca.DM(list(range(nx))))).ravel()] if lnames else []
     return {"p": p, "nx": nx, "lbx": [float(v) for v in lbx], "ubx": [float(v) for v in ubx],
-            "lbg": lbg_f, "ubg": ubg_f, "X": Xs, "gf": outs, "layout": [nx] + lay}
+            "lbg": lbg_f, "ubg": ubg_f, "X": Xs, "gf": outs, "layout": [nx] + lay,
+            "x0": [float(v) for v in np.array(x0).ravel()]}
 
 
 def layout_entries(spec):
